@@ -426,7 +426,8 @@ func (c config) String() string {
 //	prefix...     the same for middleware, "equal" replaced by "is a prefix of the request path"
 func recon(s, path string, cfg config, use bool) string {
 	if !cfg.CaseSensitive {
-		s, path = lower(s), lower(path)
+		// foldU: the most tolerant folding (see mb.go); the same as lower() on ASCII text
+		s, path = foldU(s), foldU(path)
 	}
 	st := trimSlashes(s)
 	if use {
@@ -495,9 +496,14 @@ func valueOK(t token, v string, consMode int) bool {
 func (p *pattern) exists(path string, cfg config, use, lenient bool, consMode int) bool {
 	vals := make([]string, 0, 8)
 	var rec func(ti, pos int) bool
-	cmp := path
+	// literals: byte for byte under CaseSensitive; otherwise ASCII folding for the undisputed
+	// reading and the most tolerant folding (mb.go) for the lenient one
+	fold := 0
 	if !cfg.CaseSensitive {
-		cmp = lower(path)
+		fold = 1
+		if lenient {
+			fold = 2
+		}
 	}
 	rec = func(ti, pos int) bool {
 		if ti == len(p.Toks) {
@@ -510,17 +516,14 @@ func (p *pattern) exists(path string, cfg config, use, lenient bool, consMode in
 		t := p.Toks[ti]
 		if !t.isParam() {
 			lit := t.Lit
-			if !cfg.CaseSensitive {
-				lit = lower(lit)
-			}
-			if strings.HasPrefix(cmp[pos:], lit) && rec(ti+1, pos+len(lit)) {
+			if n := matchLit(path[pos:], lit, fold); n >= 0 && rec(ti+1, pos+n) {
 				return true
 			}
 			// trailing slashes of the filled pattern may be missing in the request
-			if pos == len(cmp) || trimSlashes(lit) != lit {
+			if pos == len(path) || trimSlashes(lit) != lit {
 				l2 := trimSlashes(lit)
-				if strings.HasPrefix(cmp[pos:], l2) && pos+len(l2) == len(cmp) {
-					return rec(ti+1, pos+len(l2))
+				if n := matchLit(path[pos:], l2, fold); n >= 0 && pos+n == len(path) {
+					return rec(ti+1, pos+n)
 				}
 			}
 			return false
